@@ -33,10 +33,10 @@ def gen_cases(ctx):
     (list of chunk datas, index of first faulty chunk or None, must_fail: bool or None)"""
     rng = ctx.rng
     out = []
-    n = 30 if ctx.quick else 300
+    n = 30 if ctx.quick else 140
     for it in range(n):
         nch = rng.choice([1, 2, 3, 5, 8]) if ctx.quick else rng.choice([1, 2, 3, 5, 12, 40])
-        maxc = 300 if ctx.quick else 3000
+        maxc = 300 if ctx.quick else 1500
         datas = [rng.bytes(rng.choice([1, 2, 15, 16, 17, 64, rng.range(1, maxc)])) for _ in range(nch)] + [b""]
         chunks = G.encode_chunks(datas)
         total = sum(len(d) for d in datas)
@@ -229,3 +229,105 @@ def run(ctx):
         else:
             ctx.cov["traces_validated_against_impl"] += 1
     ctx.sample(dict(kind=cases[1][0], frames=[f.hex()[:60] for f in cases[1][1][:4]], impl=impl[1][-60:], model=model[1][-60:]))
+    run_e2e(ctx, ctx.rng)
+
+# ------------------------------------------------------------ end to end: the same uploads through S3Service::call to a backend that drains the body
+def e2e_upload(rng, size=1500, chunk=512):
+    """a streaming-signed PutObject from the reference signer: (signed request, its chunk list [(header line, data, CRLF)])"""
+    from checks import c05 as C5
+    body = bytes((i * 7 + 3) % 256 for i in range(size))
+    rq = C5.sign(dict(method="PUT", path="/my-bucket/chunked-upload", query=[], headers=[("host", "s3.example.com"), ("x-amz-date", C5.ISO)],
+                      body=body, mode="streaming", kind="put"))
+    wb = rq["wire_body"]
+    # cut the wire body back into its chunks
+    chunks, i = [], 0
+    while i < len(wb):
+        j = wb.index(b"\r\n", i) + 2
+        n = int(wb[i:wb.index(b";", i)], 16)
+        chunks.append((wb[i:j], wb[j:j + n], wb[j + n:j + n + 2]))
+        i = j + n + 2
+    assert G.flat(chunks) == wb and chunks[-1][1] == b""
+    return rq, chunks
+
+
+def e2e_case(rq, frames, terr=False):
+    from checks import c05 as C5
+    total = sum(len(f) for f in frames)
+    hs = [[n, C5.hexs(v if n != "content-length" else str(total))] for n, v in rq["headers"]] + [["authorization", C5.hexs(rq["authorization"])]]
+    return dict(config=dict(host=None, auth={C5.S.AK: C5.S.SK}, access="allow", route="none"),
+                request=dict(method="PUT", uri=C5.hexs(rq["path"]), headers=hs,
+                             body=dict(kind="stream", frames=[f.hex() for f in frames], transport_error=terr)))
+
+
+def e2e_observe(r):
+    """('backend', data, error) when the backend ran, else ('refused', status)"""
+    be = [e for e in r.get("events", []) if e.get("ev") == "backend"]
+    if "panic" in r or "http_error" in r.get("response", {}):
+        return ("crash", str(r)[:200], None)
+    if not be:
+        return ("refused", r.get("response", {}).get("status"), None)
+    b_ = be[0].get("body") or {}
+    return ("backend", bytes.fromhex(b_.get("data", "")), b_.get("error"))
+
+
+def run_e2e(ctx, rng):
+    """faults placed after the last data chunk (where every declared byte has been delivered already) and surplus chunks: the backend
+    must see the body fail, or the request must be refused - never a body that ends successfully"""
+    rq, chunks = e2e_upload(rng)
+    body = rq["body"]
+    fin = chunks[-1]
+    flip = lambda b_, k: b_[:k] + bytes([b_[k] ^ 1]) + b_[k + 1:]
+    sigpos = fin[0].index(b"=") + 1
+    variants = {
+        "valid": chunks,
+        "no-final-chunk": chunks[:-1],
+        "final-chunk-cut": chunks[:-1] + [(fin[0][:30], b"", b"")],
+        "final-signature-flipped": chunks[:-1] + [(flip(fin[0], sigpos + 5), b"", fin[2])],
+        "final-signature-of-another-chunk": chunks[:-1] + [(b"0;" + chunks[0][0].split(b";", 1)[1], b"", fin[2])],
+        "final-garbage": chunks[:-1] + [(b"garbage-instead-of-the-final-chunk\r\n", b"", b"")],
+        "surplus-chunk-after-the-final": chunks + [chunks[0]],
+        "data-after-declared-length": chunks[:-1] + [chunks[0], fin],
+    }
+    names = list(variants)
+    cases = []
+    for nme in names:
+        wb = G.flat(variants[nme])
+        for framing in ("whole", "per-chunk", "small"):
+            if framing == "whole":
+                fr = [wb]
+            elif framing == "per-chunk":
+                fr = [h + d + t for h, d, t in variants[nme]]
+            else:
+                fr = [wb[i:i + 211] for i in range(0, len(wb), 211)]
+            cases.append((nme, framing, e2e_case(rq, fr)))
+    cases.append(("transport-error-after-last-data-chunk", "per-chunk", e2e_case(rq, [h + d + t for h, d, t in chunks[:-1]], terr=True)))
+    # nothing of the body arrived at all (Content-Length: 0 although x-amz-decoded-content-length declares the payload)
+    cases.append(("nothing-received", "no-frame", e2e_case(rq, [])))
+    nobody = e2e_case(rq, [])
+    nobody["request"]["body"] = None
+    cases.append(("nothing-received", "no-body", nobody))
+    cases.append(("nothing-received", "one-empty-frame", e2e_case(rq, [b""])))
+    res = vlib.run_impl("svc", [c for _, _, c in cases])
+    for (nme, framing, c), r in zip(cases, res):
+        ctx.cov["evaluations"] += 1
+        kind, a, err = e2e_observe(r)
+        ctx.count("e2e.%s.%s" % (nme, kind if kind != "backend" else ("backend-ok" if err is None else "backend-error")))
+        ctx.nontrivial(("e2e", nme, framing, kind, err is None))
+        show = dict(kind="e2e:" + nme, framing=framing, frames=[len(bytes.fromhex(f)) for f in (c["request"]["body"] or {}).get("frames", [])][:40], declared=len(body))
+        if kind == "crash":
+            ctx.violation(dict(stage="chunked-e2e", kind="panic or transport-level error", case=show, impl=a)); continue
+        if nme == "valid":
+            if kind != "backend" or err is not None or a != body:
+                ctx.violation(dict(stage="chunked-e2e", kind="a complete, correctly signed upload was not delivered completely to the backend", case=show,
+                                   outcome=kind, error=err, delivered=len(a) if isinstance(a, bytes) else a))
+            else:
+                ctx.cov["traces_validated_against_impl"] += 1
+        elif kind == "backend" and err is None and nme != "surplus-chunk-after-the-final":
+            ctx.violation(dict(stage="chunked-e2e", kind="the body ended successfully for the backend although the upload was faulty / incomplete "
+                               "(%s)" % nme, case=show, delivered=len(a)))
+        elif kind == "backend" and a != body[:len(a)]:
+            ctx.violation(dict(stage="chunked-e2e", kind="the backend received bytes that are not a prefix of the signed payload", case=show))
+        elif kind == "backend" and nme == "surplus-chunk-after-the-final" and (err is None and a != body):
+            ctx.violation(dict(stage="chunked-e2e", kind="a surplus chunk changed what the backend received", case=show, delivered=len(a)))
+        else:
+            ctx.cov["traces_validated_against_impl"] += 1
